@@ -555,6 +555,14 @@ class Models(object):
             ns = Namespace('functools', partial=functools.partial, wraps=lambda wrapped, **k: (lambda fn: fn),
                            lru_cache=_lru_cache, cache=lambda fn: MemoFn(fn, True), reduce=functools.reduce)
             return ns if name is None else getattr(ns, name)
+        if modname == 'scipy.optimize' and name in (None, 'Bounds'):
+            class Bounds(object):
+                """scipy.optimize.Bounds: a pair of bound vectors (only the two attributes are modelled)"""
+
+                def __init__(self_b, lb=None, ub=None, keep_feasible=False):
+                    self_b.lb, self_b.ub, self_b.keep_feasible = lb, ub, keep_feasible
+            ns = Namespace('optimize', Bounds=Bounds)
+            return ns if name is None else Bounds
         if modname == 'scipy.special' or (modname == 'scipy' and name == 'special'):
             ns = Namespace('special', factorial=self.factorial)
             return ns if name in (None, 'special') else getattr(ns, name)
@@ -2049,10 +2057,15 @@ class Models(object):
 
     def np_tile(self, a, reps):
         a = self.np_asarray(a)
-        if not isinstance(reps, int) or a.ndim > 1:
-            raise AnalysisError('np.tile of a %d-d array with reps %r' % (a.ndim, reps))
-        flat = a.ravel().items()
-        return Arr((len(flat) * reps,), list(flat) * reps, kind=a.kind)
+        reps = (reps,) if isinstance(reps, int) else tuple(_conc_int(r) for r in (reps.items() if isinstance(reps, Arr) else reps))
+        nd = max(a.ndim, len(reps))
+        shape = (1,) * (nd - a.ndim) + tuple(a.shape)
+        reps = (1,) * (nd - len(reps)) + reps
+        a = a.reshape(shape) if nd else a
+        out_shape = tuple(s_ * r for s_, r in zip(shape, reps))
+        items = [a[tuple(i % s_ for i, s_ in zip(idx, shape))] if nd else a.item()
+                 for idx in itertools.product(*[range(n) for n in out_shape])]
+        return Arr(out_shape, items, kind=a.kind)
 
     def np_count_nonzero(self, a, axis=None, **kw):
         _only(kw, ('keepdims',), 'np.count_nonzero')
@@ -2181,17 +2194,26 @@ class Models(object):
         items = a.items()
         return Arr((len(order),), [items[i] for i in order])
 
-    def np_unique(self, a, **kw):
-        if kw:
-            raise AnalysisError('np.unique with options')
+    def np_unique(self, a, return_index=False, return_inverse=False, return_counts=False, **kw):
+        _only(kw, (), 'np.unique')
         a, keys = self._ranks(self.np_asarray(a).ravel())
-        seen, out = set(), []
+        seen, out, first, inverse_of_key, counts = {}, [], [], {}, []
         items = a.items()
-        for i in sorted(range(len(keys)), key=lambda i: keys[i]):
+        for i in sorted(range(len(keys)), key=lambda i: (keys[i], i)):
             if keys[i] not in seen:
-                seen.add(keys[i])
+                seen[keys[i]] = len(out)
                 out.append(items[i])
-        return Arr((len(out),), out)
+                first.append(i)              # index of the first occurrence in the input
+                counts.append(0)
+            counts[seen[keys[i]]] += 1
+        res = [Arr((len(out),), out)]
+        if return_index:
+            res.append(Arr((len(first),), first, kind='i'))
+        if return_inverse:
+            res.append(Arr((len(keys),), [seen[k] for k in keys], kind='i'))
+        if return_counts:
+            res.append(Arr((len(counts),), counts, kind='i'))
+        return res[0] if len(res) == 1 else tuple(res)
 
     def pinv(self, m, **kw):
         raise AnalysisError('linalg.pinv needs a rule specific model')
